@@ -584,6 +584,11 @@ pub fn run_capture_with(prog: &Prog, filter: &FilterSpec, stale_roots: bool) -> 
 
 // ---- hostile renderings (shared with C16) ---------------------------------------------------------
 
+thread_local! {
+    /// operations of `exec_hostile` on this thread that were left by a panic
+    pub static HOSTILE_PANICS: std::cell::Cell<usize> = const { std::cell::Cell::new(0) };
+}
+
 pub const LOUD: &str = "Loud (logs while it is rendered)";
 pub const BOMB: &str = "Bomb (panics while it is rendered)";
 
@@ -612,7 +617,9 @@ pub fn exec_hostile(prog: &Prog) -> (ExecResult, Vec<u64>) {
             if vals.iter().any(|(_, p)| matches!(p, Some(Prim::Debug(o)) if o.debug == LOUD)));
         if bomb {
             DEBUG_EFFECT.with(|e| *e.borrow_mut() = Some((BOMB.to_owned(), Box::new(|| std::panic::resume_unwind(Box::new("guest Debug impl panics"))))));
-            let _ = catch_unwind(AssertUnwindSafe(|| exec_op(&mut r, &sites, op)));
+            if catch_unwind(AssertUnwindSafe(|| exec_op(&mut r, &sites, op))).is_err() {
+                HOSTILE_PANICS.with(|p| p.set(p.get() + 1));
+            }
             DEBUG_EFFECT.with(|e| *e.borrow_mut() = None);
             DEBUG_EFFECT.with(|e| {
                 *e.borrow_mut() = Some((LOUD.to_owned(), Box::new(move || {
@@ -645,6 +652,30 @@ pub fn exec_hostile(prog: &Prog) -> (ExecResult, Vec<u64>) {
     }
     DEBUG_EFFECT.with(|e| *e.borrow_mut() = None);
     (r, raws)
+}
+
+/// For a layer that filters DEBUG spans out (`with_filter(LevelFilter::INFO)`): a panicking value recorded
+/// on a span the layer does not capture is none of the layer's business - it must not even be rendered.
+/// `(hostile, quiet)`; no operation of the hostile run may panic.
+pub fn hostile_filtered_scenario() -> (Prog, Prog) {
+    let t = "guest::c16::hostile";
+    let sites = vec![
+        site(CallSiteKind::Span, "background work", t, TracingLevel::Debug, &["a", "b"]),
+        site(CallSiteKind::Event, "event src/hostile.rs:1", t, TracingLevel::Info, &[]),
+        site(CallSiteKind::Event, "event src/hostile.rs:3", t, TracingLevel::Info, &["v"]),
+    ];
+    let dbg = |text: &str| Some(Prim::Debug(Obj { display: "-".into(), debug: text.to_owned() }));
+    let ops = vec![
+        Op::NewSpan(0, ParentKind::Ctx, vec![]),
+        Op::Enter(0),
+        Op::Record(0, vec![(0, dbg(BOMB)), (1, Some(Prim::Bool(true)))]),
+        Op::Event(1, ParentKind::Ctx, vec![]),
+        Op::Exit(0),
+        Op::Record(0, vec![(1, dbg(BOMB))]),
+        Op::Drop(0),
+    ];
+    let prog = Prog { sites, ops: ops.into_iter().map(|o| (0usize, o)).collect() };
+    (prog.clone(), prog)
 }
 
 /// `(name, the program the guest runs with misbehaving Debug values, the program whose trace it must be captured as)`
